@@ -1217,3 +1217,117 @@ Proof.
   intros Hc s Hn. eapply graceful_returned_waited; eauto.
   apply Inv2_run. apply Inv2_init; auto.
 Qed.
+
+(* ---------- a fair schedule completes: round-robin ---------- *)
+
+Fixpoint rounds (k n : nat) : list nat :=
+  match k with O => [] | S j => seq 0 n ++ rounds j n end.
+
+Lemma run_app s a b : run (run s a) b = run s (a ++ b).
+Proof. unfold run. rewrite fold_left_app. reflexivity. Qed.
+
+Lemma measure_step_skip s tid : measure (step_skip s tid) <= measure s.
+Proof.
+  unfold step_skip. destruct (step s tid) eqn:E; auto.
+  pose proof (step_measure _ _ _ E). lia.
+Qed.
+
+Lemma measure_run s sched : measure (run s sched) <= measure s.
+Proof.
+  revert s; induction sched as [|t r IH]; intros s; simpl; auto.
+  etransitivity; [apply IH|apply measure_step_skip].
+Qed.
+
+(* running a list of choices that contains an enabled thread takes a step *)
+Lemma run_hits s l tid :
+  In tid l -> step s tid <> None -> measure (run s l) < measure s.
+Proof.
+  revert s; induction l as [|x r IH]; intros s Hin Hen; [contradiction|].
+  change (run s (x :: r)) with (run (step_skip s x) r).
+  destruct (step s x) as [s1|] eqn:E.
+  - assert (step_skip s x = s1) as -> by (unfold step_skip; rewrite E; reflexivity).
+    pose proof (step_measure _ _ _ E). pose proof (measure_run s1 r). lia.
+  - assert (step_skip s x = s) as -> by (unfold step_skip; rewrite E; reflexivity).
+    destruct Hin as [Hx|Hr]; [subst; congruence|]. apply IH; auto.
+Qed.
+
+Lemma step_some_lt s tid : step s tid <> None -> tid < length (threads s).
+Proof.
+  unfold step. intros H. destruct (nth_error (threads s) tid) eqn:E; [|congruence].
+  apply nth_error_Some. congruence.
+Qed.
+
+Lemma step_threads_length s tid s' : step s tid = Some s' -> length (threads s') = length (threads s).
+Proof.
+  intros H. unfold step in H.
+  destruct (nth_error (threads s) tid) as [t|]; [|discriminate].
+  destruct t as [g pc ac ag | i d pc].
+  - destruct pc; cbn [step_closer] in H;
+      repeat match type of H with (if ?b then _ else _) = _ => destruct b end;
+      try discriminate; inversion H; subst; simpl; rewrite upd_length; auto;
+      rewrite threads_ucs_commit; auto.
+  - destruct pc; cbn [step_updater] in H;
+      repeat match type of H with (if ?b then _ else _) = _ => destruct b end;
+      try discriminate; inversion H; subst; simpl; rewrite upd_length; auto;
+      rewrite threads_ucs_commit; auto.
+Qed.
+
+Lemma run_threads_length s l : length (threads (run s l)) = length (threads s).
+Proof.
+  revert s; induction l as [|x r IH]; intros s; simpl; auto.
+  rewrite IH. unfold step_skip. destruct (step s x) eqn:E; auto.
+  eapply step_threads_length; eauto.
+Qed.
+
+Lemma measure_zero_done s : measure s = 0 -> all_done s = true.
+Proof.
+  rewrite measure_msum. unfold all_done. induction (threads s) as [|t r IH]; simpl; auto.
+  intros H. assert (thread_measure t = 0) as Ht by lia.
+  rewrite IH by lia. destruct t as [g pc ac ag|i d pc]; destruct pc; simpl in *; try lia; reflexivity.
+Qed.
+
+Lemma all_done_step_none s tid : all_done s = true -> step s tid = None.
+Proof.
+  intros H. unfold step. destruct (nth_error (threads s) tid) as [t|] eqn:E; auto.
+  unfold all_done in H. rewrite forallb_forall in H.
+  specialize (H t (nth_error_In _ _ E)).
+  destruct t as [g pc ac ag|i d pc]; destruct pc; simpl in H; try discriminate; reflexivity.
+Qed.
+
+Lemma all_done_run s l : all_done s = true -> run s l = s.
+Proof.
+  intros H. induction l as [|x r IH]; auto.
+  change (run s (x :: r)) with (run (step_skip s x) r).
+  assert (step_skip s x = s) as -> by (unfold step_skip; rewrite (all_done_step_none s x H); reflexivity).
+  exact IH.
+Qed.
+
+Lemma round_robin_completes s k :
+  Inv s -> measure s <= k -> all_done (run s (rounds k (length (threads s)))) = true.
+Proof.
+  revert s. induction k as [|k IH]; intros s I Hm.
+  - simpl. apply measure_zero_done. lia.
+  - simpl. rewrite <- run_app.
+    destruct (all_done s) eqn:Ed.
+    + rewrite (all_done_run s (seq 0 (length (threads s))) Ed). rewrite (all_done_run s _ Ed). exact Ed.
+    + destruct (progress s I Ed) as [tid Ht].
+      pose proof (step_some_lt s tid Ht) as Hlt.
+      assert (measure (run s (seq 0 (length (threads s)))) < measure s) as Hdec.
+      { apply (run_hits s _ tid); auto. apply in_seq. lia. }
+      assert (length (threads s) = length (threads (run s (seq 0 (length (threads s)))))) as El
+          by (symmetry; apply run_threads_length).
+      set (s1 := run s (seq 0 (length (threads s)))) in *.
+      rewrite El. apply IH.
+      * apply Inv_run; auto.
+      * lia.
+Qed.
+
+Lemma fair_schedule_completes i0 c0 ts :
+  c0 <> PcClosed ->
+  all_done (run (init_with i0 c0 ts) (rounds (6 * length ts) (length ts))) = true.
+Proof.
+  intros Hc.
+  pose proof (round_robin_completes (init_with i0 c0 ts) (6 * length ts)
+                (Inv_init i0 c0 ts Hc) (measure_init i0 c0 ts)) as H.
+  simpl in H. rewrite map_length in H. exact H.
+Qed.
